@@ -35,7 +35,7 @@ Next == \/ /\ stage = 0 /\ stage' = 1
            /\ \E d \in Defects : \E f \in Layouts(BaseE(d)) : cs' = [defect |-> d, files |-> f, inject |-> "none", where |-> <<>>]
         \/ /\ stage = 1 /\ stage' = 2
            /\ \/ cs' = cs
-              \/ (cs.defect = "none" /\ \E p \in DOMAIN cs.files \ {<<"main">>} : \E how \in {"syntax", "unresolved", "deleted"} :
+              \/ (cs.defect = "none" /\ \E p \in DOMAIN cs.files \ {<<"main">>} : \E how \in InjectHows :
                     cs' = Inject([base |-> 0] @@ cs, p, how))
 Spec == Init /\ [][Next]_vars
 
